@@ -429,6 +429,10 @@ def twins(repo):
 """, """        b_unit = node.begin_unit or node.end_unit or self.ast.unit
         e_unit = node.end_unit or node.begin_unit or self.ast.unit
 """))
+    A(text_twin('twin-offline-once-clipped-slices', OFF_D, """        sample = [-float("inf") for j in range(end)] + sample
+        sample_return = [max(sample[j - end:j - begin+ 1]) for j in range(end, len(sample))]
+""", """        sample_return = [max(sample[max(j - end, 0):max(j - begin + 1, 0)], default=-float("inf")) for j in range(len(sample))]
+"""))
     A({'id': 'twin-unused-helper', 'kind': 'twin', 'props': list(ALL), 'edits': [(OFF_D, E.append_text('def _unused_helper(x):\n    return x\n'))]})
     A({'id': 'twin-unused-helper-dense', 'kind': 'twin', 'props': list(ALL), 'edits': [(OFF_DENSE, E.append_text('def _unused_helper(x):\n    return [s for s in x]\n'))]})
     A({'id': 'twin-reformat-offline', 'kind': 'twin', 'props': list(ALL), 'edits': [(OFF_D, _reformat)]})
